@@ -5,6 +5,7 @@ which the checks report as a broken proof obligation."""
 from __future__ import annotations
 
 import ast
+import copy
 import os
 
 from . import core
@@ -112,6 +113,52 @@ def _class_assigns(cls):
 
 # ------------------------------------------------------------------ parse.py
 
+def _leading_zero_of(cls):
+    lz = None
+    methods = [fn for fn in cls.body if isinstance(fn, ast.FunctionDef)]
+
+    class _V(ast.NodeTransformer):
+        """the text of the token under test is `v`, however the code names it (`stream.current.value`, `token.value`, a local bound to one)"""
+        def __init__(self, aliases):
+            self.aliases = aliases
+
+        def visit_Attribute(self, n):
+            if n.attr == "value":
+                return ast.Name(id="v", ctx=ast.Load())
+            return self.generic_visit(n)
+
+        def visit_Name(self, n):
+            return ast.Name(id="v", ctx=ast.Load()) if n.id in self.aliases else n
+
+    def _calls(node, name):
+        return any(isinstance(c, ast.Call) and isinstance(c.func, ast.Attribute) and c.func.attr == name for c in ast.walk(node))
+
+    psl = [m for m in methods if m.name == "parse_selector_list"]
+    for fn in methods:
+        if lz is not None:
+            break
+        if fn.name != "parse_selector_list" and not any(_calls(m, fn.name) for m in psl):
+            continue                          # the test of a bracketed selection: in parse_selector_list or in a helper method it calls
+        cands = [n for n in ast.walk(fn) if isinstance(n, ast.If) and any(isinstance(x, ast.Raise) and any(isinstance(y, ast.Constant) and isinstance(y.value, str) and "leading zero" in y.value for y in ast.walk(x)) for x in n.body)]
+        if not cands:
+            continue
+        n = cands[0]
+        aliases = {st.targets[0].id for st in ast.walk(fn) if isinstance(st, ast.Assign) and isinstance(st.targets[0], ast.Name) and isinstance(st.value, ast.Attribute) and st.value.attr == "value"}
+        guard = None
+        for outer in ast.walk(fn):
+            if isinstance(outer, ast.If) and n in outer.body and "TOKEN_INT" in ast.unparse(outer.test):
+                guard = outer.test
+        if guard is None:                     # the helper is called under the guard
+            for m in methods:
+                for outer in ast.walk(m):
+                    if isinstance(outer, ast.If) and "TOKEN_INT" in ast.unparse(outer.test) and any(_calls(b, fn.name) for b in outer.body):
+                        guard = outer.test
+        test = ast.unparse(_V(aliases).visit(copy.deepcopy(n.test)))
+        g = ast.unparse(guard).replace("stream.current.kind", "kind").replace("token.kind", "kind") if guard is not None else "?"
+        lz = test + " | under: " + g
+    return lz
+
+
 def _parser_tables_source():
     tree = _parse("jsonpath/parse.py")
     cls = _class(tree, "Parser")
@@ -135,16 +182,7 @@ def _parser_tables_source():
             raise TableError(f"{name} is not frozenset([...])")
         return [e.value if isinstance(e, ast.Constant) else _name_of(e) for e in c.args[0].elts]
     # the leading-zero test of parse_selector_list: the `if` whose body raises "leading zero ..."
-    lz = None
-    for fn in cls.body:
-        if isinstance(fn, ast.FunctionDef) and fn.name == "parse_selector_list":
-            for n in ast.walk(fn):
-                if isinstance(n, ast.If) and any(isinstance(x, ast.Constant) and isinstance(x.value, str) and "leading zero" in x.value for x in ast.walk(ast.Module(body=n.body, type_ignores=[]))):
-                    guard = None
-                    for outer in ast.walk(fn):
-                        if isinstance(outer, ast.If) and n in outer.body and "TOKEN_INT" in ast.unparse(outer.test):
-                            guard = ast.unparse(outer.test)
-                    lz = ast.unparse(n.test).replace("stream.current.value", "v") + (" | under: " + guard.replace("stream.current.kind", "kind") if guard else " | under: ?")
+    lz = _leading_zero_of(cls)
     if lz is None:
         raise TableError("leading-zero test of parse_selector_list not found")
     return {
@@ -156,7 +194,7 @@ def _parser_tables_source():
 
 # ------------------------------------------------------------------ filter.py
 
-def filter_tables():
+def _filter_tables_source():
     tree = _parse("jsonpath/filter.py")
     consts = {}
     vte = None
@@ -281,7 +319,7 @@ def _token_names():
 
 def _leading_zero_source():
     try:
-        return _parser_tables_source()["leading_zero"]
+        return _leading_zero_of(_class(_parse("jsonpath/parse.py"), "Parser")) or "<not recognised>"
     except Exception:  # noqa: BLE001
         return "<not recognised>"
 
@@ -342,6 +380,42 @@ def exception_tables():
         return out
     except Exception:  # noqa: BLE001
         return _exception_tables_source()
+
+
+def _volatile_constants_source():
+    """class -> the constant assigned to `self.volatile` in its __init__ (source text: the one fact of this table that
+    only exists as a statement); classes whose __init__ computes it are absent"""
+    out = {}
+    try:
+        tree = _parse("jsonpath/filter.py")
+        for n in tree.body:
+            if isinstance(n, ast.ClassDef):
+                for b in n.body:
+                    if isinstance(b, ast.FunctionDef) and b.name == "__init__":
+                        for st in ast.walk(b):
+                            if isinstance(st, ast.Assign) and isinstance(st.targets[0], ast.Attribute) and st.targets[0].attr == "volatile" and isinstance(st.value, ast.Constant):
+                                out[n.name] = bool(st.value.value)
+    except Exception:  # noqa: BLE001
+        pass
+    return out
+
+
+def filter_tables():
+    try:
+        M = _mod("jsonpath.filter")
+        consts = {k: int(v) for k, v in vars(M).items() if k.startswith("PRECEDENCE_") and isinstance(v, int)}
+        vte = [c.__name__ for c in M.VALUE_TYPE_EXPRESSIONS]
+        vol = _volatile_constants_source()
+        classes = {}
+        for k, c in vars(M).items():
+            if isinstance(c, type) and c.__module__ == M.__name__:
+                fc = c.__dict__.get("FORCE_CACHE")
+                classes[k] = {"bases": [b.__name__ for b in c.__bases__ if b is not object], "force_cache": (bool(fc) if isinstance(fc, bool) else None), "volatile": vol.get(k)}
+        if not classes or not vte:
+            raise TableError("empty")
+        return {"consts": consts, "value_type_expressions": vte, "classes": classes}
+    except Exception:  # noqa: BLE001
+        return _filter_tables_source()
 
 # ------------------------------------------------------------------ lex.py
 
@@ -530,7 +604,7 @@ def cli_tables():
             handlers[n.name] = {"tries": tries, "reads": reads}
         if isinstance(n, ast.FunctionDef) and n.name.endswith("_sub_command"):
             dests = []
-            for c in ast.walk(n):
+            for c in walk(n):
                 if isinstance(c, ast.Call) and isinstance(c.func, ast.Attribute) and c.func.attr == "add_argument":
                     flags = [a.value for a in c.args if isinstance(a, ast.Constant)]
                     kw = {k.arg: k.value for k in c.keywords}
@@ -649,6 +723,8 @@ def render_lean(t) -> str:
     a("def asyncTwins : List (String × Bool × String) := " + llist(f"({lstr(k)}, {'true' if eq else 'false'}, {lstr(d)})" for k, eq, d in t["twins"]))
     a("/-- conversions that can raise a built-in exception and the exception classes of their enclosing `try` blocks -/")
     a("def conversionGuards : List (String × String × List String) := " + llist(f"({lstr(site)}, {lstr(callee)}, {llist(lstr(x) for x in g.split('|') if x)})" for site, callee, g in t["guards"]))
+    a("/-- the (file, conversion) pairs of that table -/")
+    a("def conversionSites : List (String × String) := " + llist(f"({lstr(x)}, {lstr(y)})" for x, y in sorted({(site.split(":")[0], callee) for site, callee, _ in t["guards"]})))
     a("def lexerInitPatterns : List (String × String) := " + llist(f"({lstr(k)}, {lstr(v)})" for k, v in lx["init"]))
     c = t["cli"]
     a("\n/-- cli.py: per handler, its `try` blocks: (functions called in the body, handlers: (classes, --debug re-raises, writes stderr, exit code)) -/")
